@@ -31,4 +31,4 @@ def streams(ctx):
     return [bfs_stream(ctx, c03_pred, "dc", saturates), make_stream("srv", cases, c03_pred,
                         "%d generated fault-free scripts with settling epilogue + corpus; quiescent-state predicate and end-of-run dispatch check" % n,
                         saturates),
-            bld_stream(ctx, ("C03",), ["", "a", "ca", "b"], 72, 1500, ls=(1, 1, 2, 3, 4))]
+            bld_stream(ctx, ("C03",), ["", "a", "ca", "b", "z", "cz", "bz"], 88, 1500, ls=(1, 1, 2, 3, 4))]
